@@ -190,6 +190,73 @@ def iter3(eng, out):
                         where_of(g, b), entry=eng.name)
 
 
+def key1(program, out):
+    """Link's PartialEq compares the pointer and the kind of both operands; its Hash reads no field that
+    PartialEq ignores (equal keys hash equally); both are free of side effects.  Link tables and the trace's
+    map are keyed by Link: merged or split records would make counts depend on hash collisions."""
+    from body import BodyInfo
+    from rules_trace import _places_rv, LINK
+    facts = program.facts
+    reads = {}
+    for tr, name in (("core::cmp::PartialEq", "eq"), ("core::hash::Hash", "hash")):
+        fns = program.trait_impl_method(tr, LINK, name)
+        if not fns:
+            raise KeyError("vocabulary: impl %s for Link not found" % tr)
+        f = fns[0]
+        g = program.inlined(f)
+        bi = BodyInfo(g)
+        rd = set()
+
+        def note(pl):
+            try:
+                e = bi.place(pl, {})
+            except Exception:
+                return
+
+            def visit(x):
+                if isinstance(x, tuple) and x and x[0] == "field" and len(x) > 3 and x[3] == LINK:
+                    base = x[1]
+                    par = None
+                    if mentions(base, lambda y: y == ("param", 1)):
+                        par = 1
+                    elif mentions(base, lambda y: y == ("param", 2)):
+                        par = 2
+                    if par is not None:
+                        rd.add((par, x[2]))
+                return False
+            mentions(e, visit)
+        for blk in g.blocks:
+            for st_ in blk["stmts"]:
+                if st_["k"] == "assign":
+                    for pl in _places_rv(st_["rv"]):
+                        note(pl)
+            t = blk["term"]
+            if t["k"] == "call":
+                for a in t["args"]:
+                    if a.get("k") in ("copy", "move"):
+                        note(a["pl"])
+            elif t["k"] == "switch" and t["discr"].get("k") in ("copy", "move"):
+                note(t["discr"]["pl"])
+        reads[name] = rd
+        w = {"fn": f.path, "bb": 0, "via": [], "file": f.file, "line": f.line}
+        out.obl("KEY-1", "impl:%s" % name, ("raw", f.path, 0, f.line))
+        fty = {"fndef": f.path, "k": "fndef"}
+        if program.inliner._effectful(fty):
+            out.violate("KEY-1", "%s-has-effects" % name, "Link's `%s` has side effects; hash-map operations call it an unspecified number of times" % name, w)
+        if name == "eq":
+            for fld in ("ptr", "kind"):
+                for par in (1, 2):
+                    if (par, fld) not in rd:
+                        out.violate("KEY-1", "eq-ignores:%s" % fld, "Link's PartialEq does not compare `%s` of %s operand: records of different %s collapse into one table entry" % (
+                            fld, "its left" if par == 1 else "its right", "objects" if fld == "ptr" else "kinds (Forward / Backward / Loopback)"), w)
+                        break
+    extra = sorted(fld for (par, fld) in reads.get("hash", ()) if par == 1 and (1, fld) not in reads.get("eq", ()))
+    if extra:
+        f = program.trait_impl_method("core::hash::Hash", LINK, "hash")[0]
+        out.violate("KEY-1", "hash-reads-more-than-eq:%s" % ",".join(extra), "Link's Hash feeds `%s`, which PartialEq does not compare: equal keys can land in different buckets, so a record can be inserted twice or not be found" % ", ".join(extra),
+                    {"fn": f.path, "bb": 0, "via": [], "file": f.file, "line": f.line})
+
+
 def iter5(eng, out):
     """No group-sized loop or linear scan nested in a group-sized loop."""
     g = eng.fn
